@@ -56,8 +56,9 @@ OnInfo ==
   /\ (Is("scenario_end") => exp = <<>>)
   /\ UNCHANGED <<sc, up, tracker, nextId, conn, pend, evp, db, exp, cur>> /\ Step
 
+\* (a connection may arrive while a request is outstanding on ANOTHER connection: accepting is the server task's business)
 OnConnecting ==
-  /\ Is("connecting") /\ exp = <<>>
+  /\ Is("connecting") /\ (exp = <<>> \/ cur # Ev.c)
   /\ pend' = Ev.c
   /\ conn' = [conn EXCEPT ![Ev.c] = [src |-> Ev.src, id |-> -1, st |-> "connecting", role |-> "", silent |-> Ev.silent]]
   /\ UNCHANGED <<sc, up, tracker, nextId, evp, db, exp, cur>> /\ Step
